@@ -861,6 +861,10 @@ def expand(template_path, repo='/repo'):
                 # derive(Clone) is replaced by an explicit impl with an (assumed) spec in the template
                 fa = re.sub(r'\bClone,\s*|,\s*Clone\b|\bClone\b', '', fa).replace('#[derive()]\n', '')
                 info['dropped_derives'].append('Clone (explicit impl with assumed spec in the template)')
+            for o_ in opts:
+                # rrt:I,O  ->  #[verifier::reject_recursive_types(I)] ... (Verus needs it for type parameters it cannot show to be positive)
+                if o_.startswith('rrt:'):
+                    fa = ''.join('#[verifier::reject_recursive_types(%s)]\n' % x for x in o_[4:].split(',')) + fa
             if 'structural' in opts:
                 # `==` on this type is structural equality (all fields compared): lets Verus relate exec `==` to spec `==`
                 fa = re.sub(r'#\[derive\(([^)]*)\)\]', lambda mm: '#[derive(%s, Structural)]' % mm.group(1), fa, count=1)
